@@ -449,3 +449,74 @@ Proof.
     exists a, n. split; [reflexivity | assumption].
   - intros (a & n & -> & Hin). exists (IPlain a n). split; [reflexivity|]. apply filter_In. split; [assumption | reflexivity].
 Qed.
+
+(* ---- externals through the whole reader ---- *)
+Definition is_ext_call (c : call) : bool := match c with CExternal _ _ => true | _ => false end.
+Definition ext_val_ok (c : call) : Prop := match c with CExternal _ v => 0 <= v <= 3 | _ => True end.
+
+Lemma read_syms_no_ext : forall syms o st doms, filter is_ext_call (snd (read_syms o st doms syms)) = [].
+Proof.
+  induction syms as [|[atom name] syms IH]; intros o st doms; [reflexivity|]. cbn [read_syms].
+  destruct (classify o name) as [a b | h |].
+  - destruct (node_add a (r_nodes st)) as [l1 s]. destruct (node_add b l1) as [l2 t].
+    specialize (IH o (mkR (if cH o then r_tab st ++ [(name, atom)] else r_tab st) l2) doms).
+    destruct (read_syms o (mkR (if cH o then r_tab st ++ [(name, atom)] else r_tab st) l2) doms syms) as [[st2 d2] cs].
+    cbn [snd] in *. rewrite !filter_app_, IH. destruct (true && flt o); reflexivity.
+  - specialize (IH o (mkR (if cH o then r_tab st ++ [(name, atom)] else r_tab st) (r_nodes st))
+                  (doms ++ [mkDom (hr_name h) (hr_type h) (hr_bias h) (hr_prio h) atom])).
+    destruct (read_syms o (mkR (if cH o then r_tab st ++ [(name, atom)] else r_tab st) (r_nodes st))
+                (doms ++ [mkDom (hr_name h) (hr_type h) (hr_bias h) (hr_prio h) atom]) syms) as [[st2 d2] cs].
+    cbn [snd] in *. rewrite !filter_app_, IH. destruct (true && flt o); reflexivity.
+  - specialize (IH o (mkR (if cH o then r_tab st ++ [(name, atom)] else r_tab st) (r_nodes st)) doms).
+    destruct (read_syms o (mkR (if cH o then r_tab st ++ [(name, atom)] else r_tab st) (r_nodes st)) doms syms) as [[st2 d2] cs].
+    cbn [snd] in *. rewrite !filter_app_, IH. reflexivity.
+Qed.
+
+Lemma flush_syms_no_ext o st syms done : filter is_ext_call (snd (flush_syms o st syms done)) = [].
+Proof.
+  unfold flush_syms. destruct done; [reflexivity|]. unfold read_step.
+  pose proof (read_syms_no_ext syms o st []) as H. destruct (read_syms o st [] syms) as [[st1 ds] cs]. cbn [snd] in *.
+  rewrite filter_app_, H. apply deliver_doms_not. reflexivity.
+Qed.
+
+Lemma compute_rules_no_ext ls : filter is_ext_call (compute_rules ls) = [].
+Proof. unfold compute_rules. induction (filter (fun l => 0 <? l) ls ++ filter (fun l => l <? 0) ls); [reflexivity | assumption]. Qed.
+
+Lemma rd_calls_externals : forall cs o inc st syms done nsteps, Forall ext_val_ok cs ->
+  snd (rd_calls o inc st syms done nsteps cs) = true ->
+  filter is_ext_call (fst (rd_calls o inc st syms done nsteps cs)) = filter is_ext_call cs.
+Proof.
+  induction cs as [|c cs IH]; intros o inc st syms done nsteps Hv Hok; [reflexivity|].
+  inversion Hv as [|? ? Hc Hcs]; subst. cbn [rd_calls] in *.
+  destruct c; cbn [filter is_ext_call];
+    try (apply IH; assumption).
+  - (* CBegin *)
+    destruct (negb inc && (0 <? nsteps)); [discriminate|].
+    specialize (IH o inc st [] false nsteps Hcs). destruct (rd_calls o inc st [] false nsteps cs) as [d ok]. cbn [fst snd] in *.
+    apply IH. assumption.
+  - (* CEnd *)
+    pose proof (flush_syms_no_ext o st syms done) as F. destruct (flush_syms o st syms done) as [st1 c1]. cbn [snd] in F.
+    specialize (IH o inc (if inc then st1 else r0) [] false (nsteps + 1) Hcs).
+    destruct (rd_calls o inc (if inc then st1 else r0) [] false (nsteps + 1) cs) as [d ok]. cbn [fst snd] in *.
+    rewrite filter_app_, F. cbn [app filter is_ext_call]. apply IH. assumption.
+  - (* CRule *)
+    specialize (IH o inc st syms done nsteps Hcs). destruct (rd_calls o inc st syms done nsteps cs) as [d ok]. cbn [fst snd] in *.
+    apply IH. assumption.
+  - (* CExternal *)
+    cbn [ext_val_ok] in Hc. rewrite (ext_values_back v Hc) in *.
+    specialize (IH o inc st syms done nsteps Hcs). destruct (rd_calls o inc st syms done nsteps cs) as [d ok]. cbn [fst snd filter is_ext_call] in *.
+    f_equal. apply IH. assumption.
+  - (* CAssume *)
+    pose proof (flush_syms_no_ext o st syms done) as F. destruct (flush_syms o st syms done) as [st1 c1]. cbn [snd] in F.
+    specialize (IH o inc st1 [] true nsteps Hcs). destruct (rd_calls o inc st1 [] true nsteps cs) as [d ok]. cbn [fst snd] in *.
+    rewrite !filter_app_, F, compute_rules_no_ext. cbn [app]. apply IH. assumption.
+Qed.
+
+Lemma read_back_externals o out : Forall ext_val_ok out -> snd (read_back o out) = true ->
+  filter is_ext_call (fst (read_back o out)) = filter is_ext_call out.
+Proof.
+  intros Hv. unfold read_back. destruct (negb (has_end out)); [discriminate|].
+  pose proof (rd_calls_externals out o (prog_inc out || starts_with_9 (prog_inc out) out) r0 [] false 0 Hv) as H.
+  destruct (rd_calls o (prog_inc out || starts_with_9 (prog_inc out) out) r0 [] false 0 out) as [d ok]. cbn [fst snd] in *.
+  intros Hok. cbn [filter is_ext_call]. apply H. assumption.
+Qed.
